@@ -61,6 +61,9 @@ struct Tree {
     std::vector<PortDesc *> all_ports;
 };
 
+static bool g_quiet = false;
+static uint64_t g_quiet_calls = 0, g_quiet_default_calls = 0;
+
 static inline void *token(int port_id, long idx) { return (void *)(uintptr_t)(0x100000 + port_id * 4096 + (idx + 1)); }
 static inline void *root_token() { return (void *)(uintptr_t)0xbeef0; }
 
@@ -181,6 +184,7 @@ static inline std::function<void(const char *, rtosc::RtData &)> make_cb(Tree &t
     Tree *tp = &t;
     if(!pd->sub)
         return [tp, pd](const char *m, rtosc::RtData &d) {
+            if(g_quiet) { ++g_quiet_calls; return; }   // allocation-free mode (C03)
             tp->log.push_back(LogEntry{pd->id, m, d.loc ? std::string(d.loc) : std::string(), d.loc != 0, d.obj, d.port, d.message});
         };
     return [tp, pd](const char *m, rtosc::RtData &d) {
@@ -197,6 +201,7 @@ static inline void realize(Tree &t, Table *tb, Rng &r, const GenOpts &o)
     for(auto &p : tb->ports) if(p->sub && !p->sub->lib) realize(t, p->sub, r, o);
     Tree *tp = &t;
     auto defcb = [tp, tb](const char *m, rtosc::RtData &d) {
+        if(g_quiet) { ++g_quiet_calls; ++g_quiet_default_calls; return; }
         tp->log.push_back(LogEntry{-1 - tb->id, m, d.loc ? std::string(d.loc) : std::string(), d.loc != 0, d.obj, d.port, d.message});
     };
     auto mkport = [&](PortDesc *pd) {
